@@ -345,22 +345,17 @@ func (ctrl *DefaultController) importLog(ctx context.Context, store Store, log l
 							defaultMetadata = accountSchema.DefaultMetadata()
 						}
 					}
-					if len(defaultMetadata) > 0 {
-						if err := store.UpsertAccounts(ctx, ledger.AccountWithDefaultMetadata{
-							Account: &ledger.Account{
-								Address:       address,
-								Metadata:      payload.Metadata,
-								FirstUsage:    log.Date,
-								InsertionDate: log.Date,
-								UpdatedAt:     log.Date,
-							},
-							DefaultMetadata: defaultMetadata,
-						}); err != nil {
-							return nil, fmt.Errorf("failed to update account metadata: %w", err)
-						}
-					} else if err := store.UpdateAccountsMetadata(ctx, ledger.AccountMetadata{
-						address: payload.Metadata,
-					}, log.Date); err != nil {
+					// the same upsert as saveAccountMetadata, dated at the log: the write counts as a usage of the account
+					if err := store.UpsertAccounts(ctx, ledger.AccountWithDefaultMetadata{
+						Account: &ledger.Account{
+							Address:       address,
+							Metadata:      payload.Metadata,
+							FirstUsage:    log.Date,
+							InsertionDate: log.Date,
+							UpdatedAt:     log.Date,
+						},
+						DefaultMetadata: defaultMetadata,
+					}); err != nil {
 						return nil, fmt.Errorf("failed to update account metadata: %w", err)
 					}
 				}
